@@ -56,6 +56,8 @@ CHUNK = 1
 
 EPS = np.finfo(np.float64).eps
 C_SAFE = 1e3
+# additions whose oracle fires on the pinned tree (reported, awaiting a repair of numqi): skipped and counted as pending/<flag>
+PENDING = {'empty_control'}
 
 
 def tol_of(opnorm, statenorm, terms):
@@ -108,6 +110,28 @@ def polarisation_ops(d, lo=None, hi=None):
     return ret
 
 
+def thin_matrix_units(D):
+    """n >= 5: the matrix units E_ij on the diagonal, the first row, the first column and the anti-diagonal (every row index and every
+    column index occurs, with equal and with different partner): a thin slice of the complete basis used for n <= 4"""
+    ret = []
+    for i in range(D):
+        for j in range(D):
+            if i == j or i == 0 or j == 0 or i + j == D - 1:
+                m = np.zeros((D, D), dtype=np.complex128)
+                m[i, j] = 1
+                ret.append(('E%d_%d' % (i, j), m))
+    return ret
+
+
+def thin_ops(A, k, kfull):
+    """operator alphabet of the thin slices: all matrix units for k <= kfull; first row + diagonal units above; + the generic atoms"""
+    d = 2**k
+    units = [('E%d' % i, m) for i, m in enumerate(matrix_units(d))]
+    if k > kfull:
+        units = [u for i, u in enumerate(units) if i < d or i % (d + 1) == 0]
+    return units + [('U', A['U%d' % k]), ('M', A['M%d' % k])]
+
+
 def polarisation_states(d):
     ret = [('e%d' % a, np.eye(d, dtype=np.complex128)[a].copy()) for a in range(d)]
     for a in range(d):
@@ -143,6 +167,8 @@ def atoms(env):
         for n in (1, 2, 3, 4):
             A['rho%d' % n] = ref.rand_dm(rng, 2**n)
         A['theta'] = rng.uniform(0.3, 2 * np.pi - 0.3, size=6)
+        for n in (5, 6):  # drawn last: the atoms above are the same as before these were added
+            A['rho%d' % n] = ref.rand_dm(rng, 2**n)
         _ATOMS.clear()
         _ATOMS[key] = A
     return _ATOMS[key]
@@ -218,6 +244,9 @@ def run_gate(case, out, env):
 
         def impl(q, op):
             return st.apply_gate(q, op, tgt)
+
+    def impl_ct(q, op, c, t):
+        return st.apply_control_n_gate(q, op, set(c), t) if c else st.apply_gate(q, op, t)
     ops = [('E%d' % i, m) for i, m in enumerate(matrix_units(d))] + [('U', A['U%d' % k]), ('M', A['M%d' % k])]
     states = [('e%d' % i, v) for i, v in enumerate(basis_vectors(D))] + [('psi', A['psi%d' % n])]
     for oname, op in ops:
@@ -265,7 +294,52 @@ def run_gate(case, out, env):
     else:
         if k == 1:
             forms.append(('index=int', lambda q, op: st.apply_gate(q, op, tgt[0])))
+    # ---- further argument forms (np.int64 indices, list / ndarray / frozenset / tuple collections; sub-alphabet of states: the conversion
+    #      happens before any arithmetic): np.int64 is an int; the other collections are not documented -> a refusal is counted
+    forms2 = [('index=np.int64', lambda q, op: impl_ct(q, op, ctl, tuple(np.int64(x) for x in tgt)), True)]
+    if k == 1:
+        forms2.append(('index=np.int64', lambda q, op: impl_ct(q, op, ctl, np.int64(tgt[0])), True))
+    forms2.append(('index=list', lambda q, op: impl_ct(q, op, ctl, list(tgt)), False))
+    forms2.append(('index=ndarray', lambda q, op: impl_ct(q, op, ctl, np.array(tgt, dtype=np.int64)), False))
+    if ctl:
+        if len(ctl) == 1:
+            forms2.append(('control=np.int64', lambda q, op: st.apply_control_n_gate(q, op, np.int64(ctl[0]), tgt), True))
+        forms2.append(('control=set[np.int64]', lambda q, op: st.apply_control_n_gate(q, op, {np.int64(x) for x in ctl}, tgt), True))
+        for cname, cf in (('list', list), ('tuple', tuple), ('frozenset', frozenset), ('ndarray', lambda c: np.array(c, dtype=np.int64)), ('reversed_list', lambda c: list(c)[::-1])):
+            forms2.append(('control=' + cname, lambda q, op, cf=cf: st.apply_control_n_gate(q, op, cf(ctl), tgt), False))
+    else:
+        # a controlled gate without any control qubit is the gate itself (other empty collections than set())
+        for cname, cf in (('frozenset()', frozenset), ('[]', list), ('()', tuple)):
+            forms2.append(('control=' + cname, lambda q, op, cf=cf: st.apply_control_n_gate(q, op, cf(), tgt), False))
     W = ref_operator(U, ctl, tgt, n)
+    for fname, fn, documented in forms2:
+        for sname, q in states[-2:]:
+            out.state()
+            out.trans()
+            det = dict(n=n, targets=list(tgt), controls=list(ctl), op=U, state=q, form=fname)
+            try:
+                got = fn(q.copy(), U.copy())
+            except Exception as e:  # noqa
+                if not documented and ((isinstance(e, AssertionError) and core.is_precondition_assert(e)) or isinstance(e, TypeError)):
+                    out.count('undocumented_form_rejected[%s]' % fname)
+                else:
+                    out.violation('%s/%s/%s' % (site, fname, type(e).__name__), '%s with %s raised %s: %s' % (site, fname, type(e).__name__, str(e)[:160]), **det)
+                continue
+            _compare(out, got, W @ q, tol_of(np.linalg.norm(U), 1.0, d), '%s/mismatch/%s' % (site, fname),
+                     '%s(%s) != embedded operator @ state' % (site, fname), det, shape=(D,))
+    if not ctl:
+        # ---- EMPTY control set: apply_control_n_gate(q, op, set(), tgt) == apply_gate(q, op, tgt) (own branch of the slicing code; the arithmetic is the apply_gate
+        #      enumerated above): complete operator alphabet for k<=2, first-row matrix units + generic atoms for k=3, all states
+        for oname, op in (ops if k <= 2 else ops[:d] + ops[-2:]):
+            W0 = ref.embed(op, list(tgt), n)
+            for sname, q in states:
+                out.state()
+                out.trans()
+                det = dict(n=n, targets=list(tgt), controls=[], op=op, state=q)
+                ok, got = _call(out, 'sim.state/apply_control_n_gate/empty_control', 'apply_control_n_gate(q, op, set(), %s)' % (tgt,), lambda: st.apply_control_n_gate(q.copy(), op.copy(), set(), tgt), det)
+                if ok:
+                    _compare(out, got, W0 @ q, tol_of(max(1.0, float(np.linalg.norm(op))), 1.0, d), 'sim.state/apply_control_n_gate/mismatch/empty_control/k=%d' % k,
+                             'apply_control_n_gate(n=%d, controls=set(), targets=%s, op=%s, state=%s) != embedded operator @ state' % (n, tgt, oname, sname), det, shape=(D,))
     for fname, fn in forms:
         for sname, q in states:
             out.state()
@@ -286,6 +360,26 @@ def run_gate(case, out, env):
                      '%s(float64 basis state e%d, complex unitary, n=%d, targets=%s, controls=%s) != embedded operator @ state '
                      '(imaginary part lost?)' % (site, i, n, tgt, ctl), det, shape=(D,))
             out.outcome((n, 'f64', np.asarray(got)), nontrivial=True)
+    # ---- dtype alphabet (n <= 3: the dtype handling does not depend on n): real / integer basis states x complex / real / integer operator.
+    #      float64 x float64 is a documented ndarray input; integer arrays are not promised -> a TypeError is counted, a wrong cast is a violation
+    if n <= 3:
+        R = np.ascontiguousarray(M.real)
+        Xi = np.eye(d, dtype=np.int64)[::-1].copy()  # integer permutation matrix (X on every target)
+        for sdt, oname, op in (('float64', 'real', R), ('int64', 'complex', U), ('int64', 'real', R), ('int64', 'int', Xi)):
+            Wd = ref_operator(op.astype(np.complex128), ctl, tgt, n)
+            for i, q in enumerate(basis_vectors(D, dtype=getattr(np, sdt))):
+                out.state()
+                out.trans()
+                det = dict(n=n, targets=list(tgt), controls=list(ctl), op=op, state=q, state_dtype=sdt, op_dtype=oname)
+                try:
+                    got = impl(q.copy(), op.copy())
+                except TypeError:
+                    if sdt == 'int64':
+                        out.count('integer_state_rejected')
+                        continue
+                    raise
+                _compare(out, got, Wd @ q, tol_of(max(1.0, float(np.linalg.norm(op))), 1.0, d), '%s/mismatch/dtype/%s_state_%s_op' % (site, sdt, oname),
+                         '%s(%s basis state e%d, %s operator, n=%d, targets=%s, controls=%s) != embedded operator @ state' % (site, sdt, i, oname, n, tgt, ctl), det, shape=(D,))
     out.trace()
     out.sample = {'kind': 'gate', 'n': n, 'targets': list(tgt), 'controls': list(ctl), 'n_ops': len(ops), 'n_states': len(states)}
 
@@ -299,13 +393,19 @@ def run_dm(case, out, env):
     d, D = 2**k, 2**n
     oc = order_class(tgt)
     site = 'sim.dm/apply_gate'
-    if case['mode'] == 'polar':
+    thin = case['mode'] == 'thin'
+    if thin:
+        ops = thin_ops(A, k, case['kfull'])[:-2]
+    elif case['mode'] == 'polar':
         ops = polarisation_ops(d, case['lo'], case['hi'])
     else:
         ops = [('E%d' % i, m) for i, m in enumerate(matrix_units(d))]
     if case.get('lo', 0) == 0:
         ops = ops + [('U', A['U%d' % k]), ('M', A['M%d' % k])]
-    rhos = [('E%d' % i, m.astype(np.complex128)) for i, m in enumerate(matrix_units(D))] + [('rho', A['rho%d' % n])]
+    if thin:
+        rhos = thin_matrix_units(D) + [('rho', A['rho%d' % n])]
+    else:
+        rhos = [('E%d' % i, m.astype(np.complex128)) for i, m in enumerate(matrix_units(D))] + [('rho', A['rho%d' % n])]
     for oname, op in ops:
         W = ref.embed(op, list(tgt), n)
         Wd = W.conj().T
@@ -324,8 +424,8 @@ def run_dm(case, out, env):
             g = np.asarray(got)
             out.outcome((n, g), nontrivial=bool(g.shape == rho.shape and np.abs(g - rho).max() > 1e-9 and np.abs(g).max() > 1e-9))
     # ---- the documented index forms int | tuple[int] (sub-alphabet: generic atoms and the complex polarisation elements of E_0)
-    if case.get('lo', 0) == 0:
-        forms = [('tuple', tuple(tgt))] + ([('int', tgt[0])] if k == 1 else [])
+    if case.get('lo', 0) == 0 and not thin:
+        forms = [('tuple', tuple(tgt)), ('tuple[np.int64]', tuple(np.int64(x) for x in tgt))] + ([('int', tgt[0]), ('np.int64', np.int64(tgt[0]))] if k == 1 else [])
         sub_ops = [('U', A['U%d' % k]), ('M', A['M%d' % k])] + polarisation_ops(d, 0, 1)[:7]
         for fname, idx in forms:
             for oname, op in sub_ops:
@@ -346,6 +446,19 @@ def run_dm(case, out, env):
             out.trans(3)
             if np.abs(r[0] - 0.3 * r[1] - 2j * r[2]).max() > tol_of(np.linalg.norm(U)**2, 3.0, 2 * d):
                 out.violation(site + '/not_linear_in_dm', 'apply_gate(a r1 + b r2) != a apply_gate(r1) + b apply_gate(r2)', n=n, index=list(tgt), op=U, r1=r1, r2=r2)
+        # ---- dtype alphabet: a float64 (real) density matrix with a real and with a complex operator
+        R = np.ascontiguousarray(A['M%d' % k].real)
+        for oname, op in (('real', R), ('complex', A['U%d' % k])):
+            W = ref.embed(op, list(tgt), n)
+            for rname, rho in rhos[:D + 2]:
+                rho = np.ascontiguousarray(rho.real)
+                out.state()
+                out.trans()
+                det = dict(n=n, index=list(tgt), op=op, dm=rho, dm_dtype='float64', op_dtype=oname)
+                ok, got = _call(out, site + '/float64_dm', 'sim.dm.apply_gate on a float64 density matrix', lambda: dmm.apply_gate(rho.copy(), op.copy(), list(tgt)), det)
+                if ok:
+                    _compare(out, got, W @ rho @ W.conj().T, tol_of(max(1.0, np.linalg.norm(op))**2, 1.0, 2 * d), '%s/mismatch/dtype/float64_dm_%s_op' % (site, oname),
+                             'sim.dm.apply_gate(float64 dm=%s, %s op, index=%s) != U rho U^dagger' % (rname, oname, list(tgt)), det, shape=(D, D))
     out.trace()
     out.sample = {'kind': 'dm', 'n': n, 'index': list(tgt), 'mode': case['mode'], 'n_ops': len(ops), 'n_dm': len(rhos)}
 
@@ -359,9 +472,15 @@ def run_expect(case, out, env):
     d, D = 2**k, 2**n
     site = 'sim.dm/operator_expectation'
     oc = order_class(tgt)
-    ops = [('E%d' % i, m) for i, m in enumerate(matrix_units(d))] + [('U', A['U%d' % k]), ('M', A['M%d' % k])]
-    rhos = [('E%d' % i, m.astype(np.complex128)) for i, m in enumerate(matrix_units(D))] + [('rho', A['rho%d' % n])]
-    forms = [('list', list(tgt)), ('tuple', tuple(tgt))] + ([('int', tgt[0])] if k == 1 else [])
+    if case.get('thin'):
+        ops = thin_ops(A, k, case['kfull'])
+        rhos = thin_matrix_units(D) + [('rho', A['rho%d' % n])]
+    else:
+        ops = [('E%d' % i, m) for i, m in enumerate(matrix_units(d))] + [('U', A['U%d' % k]), ('M', A['M%d' % k])]
+        rhos = [('E%d' % i, m.astype(np.complex128)) for i, m in enumerate(matrix_units(D))] + [('rho', A['rho%d' % n])]
+    forms = [('list', list(tgt)), ('tuple', tuple(tgt)), ('tuple[np.int64]', tuple(np.int64(x) for x in tgt))] + ([('int', tgt[0]), ('np.int64', np.int64(tgt[0]))] if k == 1 else [])
+    if case.get('thin'):
+        forms = forms[:1]  # index forms and dtypes are converted before any arithmetic: enumerated for n <= 4 only
     for fname, idx in forms:
         for oname, op in (ops if fname == 'list' else ops[-2:] + ops[:4]):
             W = ref.embed(op, list(tgt), n)
@@ -379,6 +498,19 @@ def run_expect(case, out, env):
                                 '%s/mismatch/%s/index=%s' % (site, oc, fname), 'operator_expectation(n=%d, index=%r, op=%s, dm=%s) != Tr(rho O_embedded)' % (n, idx, oname, rname), det)
                 if good:
                     out.outcome((n, complex(np.asarray(got).reshape(()))), nontrivial=abs(exp) > 1e-9)
+    # ---- dtype alphabet: float64 (real) density matrix x real / complex operator
+    R = np.ascontiguousarray(A['M%d' % k].real)
+    for oname, op in (() if case.get('thin') else (('real', R), ('complex', A['U%d' % k]))):
+        W = ref.embed(op, list(tgt), n)
+        for rname, rho in rhos[:D + 2]:
+            rho = np.ascontiguousarray(rho.real)
+            out.state()
+            out.trans()
+            det = dict(n=n, index=list(tgt), op=op, dm=rho, dm_dtype='float64', op_dtype=oname)
+            ok, got = _call(out, site + '/float64_dm', 'operator_expectation on a float64 density matrix', lambda: dmm.operator_expectation(rho.copy(), op.copy(), list(tgt)), det)
+            if ok:
+                _compare(out, np.asarray(got).reshape(()), np.trace(rho @ W), tol_of(max(1.0, np.linalg.norm(op)), 1.0, D * D), '%s/mismatch/dtype/float64_dm_%s_op' % (site, oname),
+                         'operator_expectation(float64 dm=%s, %s op, index=%s) != Tr(rho O_embedded)' % (rname, oname, list(tgt)), det)
     out.trace()
     out.sample = {'kind': 'expect', 'n': n, 'index': list(tgt)}
 
@@ -449,6 +581,12 @@ def run_inner(case, out, env):
                 out.violation('%s/mismatch/%s' % (site, cls), 'term %d of inner_product_psi0_O_psi1(psi0=%s, psi1=%s, tA=%s, tB=%s): %r != <psi0|O|psi1> = %r (product is left to right)'
                               % (t, n0, n1, tA, tB, complex(got[t]), complex(exp[t])), term=t, observed=got, expected=exp, **det)
         out.outcome((n, got), nontrivial=bool(np.abs(got[1:]).max() > 1e-9))
+    # an empty operator list (a sum without terms): an empty result vector
+    out.state()
+    out.trans()
+    ok, got = _call(out, site + '/empty_op_list', 'inner_product_psi0_O_psi1(psi0, psi1, [])', lambda: st.inner_product_psi0_O_psi1(basis[0].copy(), basis[0].copy(), []), dict(n=n))
+    if ok:
+        out.check(np.asarray(got).shape == (0,), site + '/shape/empty_op_list', 'inner_product_psi0_O_psi1(.., []) returned shape %s, expected (0,)' % (np.asarray(got).shape,), n=n)
     # n<=2: all products of matrix units E_ab@tA . E_cd@tB on all <e_i| . |e_j>
     if case['units']:
         UA, UB = matrix_units(2**kA), matrix_units(2**kB)
@@ -602,6 +740,8 @@ def event_list(nq, level):
     ev += [('append_prev', r) for r in ((0, 1, 2) if full else (1,))]
     ev += [('extend', s) for s in ((['A', 'B', 'C'] if nq >= 3 else ['A', 'B']) if full else ['B'])]
     ev += [('shift', 1), ('shift', -1)]
+    if full:
+        ev.append(('shift', 0))  # documented no-op
     return ev
 
 
@@ -648,6 +788,9 @@ class Builder:
         self.ops = []          # reference program
         self.last_gate = None  # gate object returned by the last gate-adding call
         self.holders = {}
+        self.tags = []         # aligned with self.ops: None | (placeholder key, value -> matrix) for gates bound to circ.P
+        self.last_tag = None
+        self.inner = []        # (sub-circuit, its reference program) of every extend_circuit event
         self.status = 'ok'
 
     def _ctl_arg(self, c):
@@ -659,6 +802,7 @@ class Builder:
         A, env = self.A, self.env
         kind = ev[0]
         g = None
+        self._tag = None
         if kind == 'U1':
             g = getattr(circ, ev[1])(ev[2])
             ops.append((FIXED1[ev[1]], (), (ev[2],)))
@@ -673,17 +817,17 @@ class Builder:
             ops.append((ref.X, tuple(ev[1]), (ev[2],)))
         elif kind == 'P1':
             arg, val = param1(env, ev[3])
-            arg = self._holder(arg, val, circ)
+            arg = self._holder(arg, val, circ, PAR1[ev[1]])
             g = getattr(circ, ev[1])(ev[2], arg)
             ops.append((PAR1[ev[1]](val), (), (ev[2],)))
         elif kind == 'u3':
             arg, val = param3(env, ev[2])
-            arg = self._holder(arg, np.array(val), circ)
+            arg = self._holder(arg, np.array(val), circ, lambda v: ref_u3(*v))
             g = circ.u3(ev[1], arg)
             ops.append((ref_u3(*val), (), (ev[1],)))
         elif kind == 'rzz':
             arg, val = param1(env, ev[3])
-            arg = self._holder(arg, val, circ)
+            arg = self._holder(arg, val, circ, ref_rzz)
             g = circ.rzz((ev[1], ev[2]), arg)
             ops.append((ref_rzz(val), (), (ev[1], ev[2])))
         elif kind == 'CP':
@@ -733,6 +877,7 @@ class Builder:
             else:
                 circ.append_gate(self.last_gate, t2 if len(t2) > 1 else t2[0])
             ops.append((m, c2, t2))
+            self._pad_tags(self.last_tag)  # the same Gate object: follows the same placeholder
             return
         elif kind == 'extend':
             other = self.numqi.sim.Circuit()
@@ -741,6 +886,8 @@ class Builder:
                 self.add(e, circ=other, ops=oops, top=False)
             circ.extend_circuit(other)
             ops.extend(oops)
+            self.inner.append((other, oops))
+            self._pad_tags(None)
             return
         elif kind == 'shift':
             if ops and min(min(c + t) for _, c, t in ops) + ev[1] < 0:
@@ -757,17 +904,32 @@ class Builder:
         if top:
             self.last_gate = g
             self.last_ref = ops[-1]
+            self.last_tag = self._tag
+            self._pad_tags(self._tag)
 
-    def _holder(self, arg, val, circ):
+    def _pad_tags(self, tag):
+        self.tags += [None] * (len(self.ops) - len(self.tags))
+        if tag is not None:
+            self.tags[-1] = tag
+
+    def _holder(self, arg, val, circ, fn=None):
         if isinstance(arg, str) and arg == 'HOLD':
             key = 'h%d' % len(self.holders)
             self.holders[key] = val
+            self._tag = (key, fn)
             return self.circ.P[key]
         return arg
 
     def finish(self):
         if self.holders:
             self.circ.setP(**self.holders)
+
+    def rebind(self):
+        """second setP call with other values (v -> v + 1 + index): -> the reference program for the new values"""
+        new = {k: v + 1.0 + i for i, (k, v) in enumerate(sorted(self.holders.items()))}
+        self.circ.setP(**new)
+        self.holders = new
+        return [((tag[1](new[tag[0]]), c, t) if tag is not None else (m, c, t)) for (m, c, t), tag in zip(self.ops, self.tags)]
 
 
 def program_nq(ops):
@@ -824,7 +986,6 @@ _SUBSETS = {}
 
 
 def run_history(numqi, out, env, hist):
-    st = numqi.sim.state
     b = Builder(numqi, env)
     hl = [list(e) for e in hist]
     try:
@@ -841,36 +1002,91 @@ def run_history(numqi, out, env, hist):
         out.violation('sim.Circuit/build/%s/%s' % (type(e).__name__, hist_class(hist)), 'building the circuit for history %s raised %s: %s' % (hl, type(e).__name__, str(e)[:160]), history=hl)
         return
     out.state()
-    n, Uref = ref_unitary(b.ops)
-    D = 2**n
     cls = hist_class(hist)
-    det = dict(history=hl, num_qubit=n)
-    # gates are unitary: every application has kappa = 1; len(ops) applications of <= 2^4 terms
-    tl = tol_of(1.0, 1.0, 16 * len(b.ops))
+    det = dict(history=hl)
+    validate(numqi, out, env, b.circ, b.ops, cls, 'history %s' % hl, det, wide=len(hist) == 1)
+    if b.holders:
+        # ---- setP is not one-shot: a second call with other values re-binds every placeholder gate
+        try:
+            ops2 = b.rebind()
+        except Exception as e:  # noqa
+            out.violation('sim.Circuit/setP/second_call/%s/%s' % (type(e).__name__, cls), 'second setP call for history %s raised %s: %s' % (hl, type(e).__name__, str(e)[:160]), history=hl)
+            ops2 = None
+        if ops2 is not None:
+            out.state()
+            validate(numqi, out, env, b.circ, ops2, cls, 'history %s after a second setP(%s)' % (hl, b.holders), dict(second_setP=dict(b.holders), **det),
+                     marginals=False, site='sim.Circuit/setP/second_call')
+    for other, oops in b.inner:
+        # ---- extend_circuit shares the Gate objects but not the index bookkeeping: the sub-circuit itself is unchanged by whatever
+        #      happened to the outer circuit afterwards (shift_qubit_index_, further gates)
+        check_circuit_is(numqi, out, env, other, oops, 'sim.Circuit/extend_circuit/inner_changed/' + cls, 'sub-circuit passed to extend_circuit in history %s' % hl, det)
+    out.trace()
+
+
+def index_signature(circ):
+    """gate_index_list indices in the canonical form (sorted controls, targets)"""
+    ret = []
+    for gate, index in circ.gate_index_list:
+        if gate.kind == 'control':
+            ret.append((tuple(sorted(int(x) for x in index[0])), tuple(int(x) for x in index[1])))
+        else:
+            ret.append(((), tuple(int(x) for x in index)))
+    return ret
+
+
+def check_circuit_is(numqi, out, env, circ, ops, key, what, det):
+    """bookkeeping (gate_index_list) and unitary of `circ` are those of the reference program `ops`"""
     out.trans()
-    ok, U = _call(out, 'sim.Circuit/to_unitary/' + cls, 'Circuit.to_unitary() for history %s' % hl, lambda: b.circ.to_unitary(), det)
+    sig = index_signature(circ)
+    exp = [(tuple(sorted(c)), tuple(t)) for _, c, t in ops]
+    if sig != exp:
+        out.violation(key + '/gate_index_list', '%s: gate_index_list indices %s instead of %s' % (what, sig, exp), observed=repr(sig), expected=repr(exp), **det)
+        return False
+    n, Uref = ref_unitary(ops)
+    ok, U = _call(out, key, '%s: to_unitary()' % what, lambda: circ.to_unitary(), det)
+    return ok and _compare(out, U, Uref, tol_of(1.0, 1.0, 16 * len(ops)), key + '/unitary', '%s: to_unitary() != its own reference program' % what, det, shape=(2**n, 2**n))
+
+
+def validate(numqi, out, env, circ, ops, cls, what, det, marginals=True, wide=False, site='sim.Circuit'):
+    """to_unitary == ordered product of the reference embeddings, unitarity, apply_state(generic psi), all marginals;
+    wide: apply_state on a state with one more qubit than circ.num_qubit acts as U (x) 1"""
+    st = numqi.sim.state
+    n, Uref = ref_unitary(ops)
+    D = 2**n
+    det = dict(num_qubit=n, **det)
+    # gates are unitary: every application has kappa = 1; len(ops) applications of <= 2^4 terms
+    tl = tol_of(1.0, 1.0, 16 * len(ops))
+    out.trans()
+    ok, U = _call(out, '%s/to_unitary/%s' % (site, cls), 'Circuit.to_unitary() for %s' % what, lambda: circ.to_unitary(), det)
     if ok:
-        if _compare(out, U, Uref, tl, 'sim.Circuit/to_unitary/mismatch/' + cls, 'to_unitary() for history %s != ordered product of the embedded gates (%d qubits)' % (hl, n), det, shape=(D, D)):
+        if _compare(out, U, Uref, tl, '%s/to_unitary/mismatch/%s' % (site, cls), 'to_unitary() for %s != ordered product of the embedded gates (%d qubits)' % (what, n), det, shape=(D, D)):
             Ua = np.asarray(U)
             if np.abs(Ua.conj().T @ Ua - np.eye(D)).max() > tl * D:
-                out.violation('sim.Circuit/to_unitary/not_unitary/' + cls, 'to_unitary() is not unitary for history %s' % hl, observed=Ua, **det)
+                out.violation('%s/to_unitary/not_unitary/%s' % (site, cls), 'to_unitary() is not unitary for %s' % what, observed=Ua, **det)
         out.outcome((n, np.asarray(U)), nontrivial=bool(np.abs(Uref - np.eye(D)).max() > 1e-9))
     psi = atoms(env)['psi%d' % n]
     out.trans()
-    ok, got = _call(out, 'sim.Circuit/apply_state/' + cls, 'Circuit.apply_state(psi) for history %s' % hl, lambda: b.circ.apply_state(psi.copy()), dict(state=psi, **det))
+    ok, got = _call(out, '%s/apply_state/%s' % (site, cls), 'Circuit.apply_state(psi) for %s' % what, lambda: circ.apply_state(psi.copy()), dict(state=psi, **det))
     if ok:
         exp = Uref @ psi
-        good = _compare(out, got, exp, tl, 'sim.Circuit/apply_state/mismatch/' + cls, 'apply_state(generic psi) for history %s != U_ref psi' % hl, dict(state=psi, **det), shape=(D,))
-        if good:
+        good = _compare(out, got, exp, tl, '%s/apply_state/mismatch/%s' % (site, cls), 'apply_state(generic psi) for %s != U_ref psi' % what, dict(state=psi, **det), shape=(D,))
+        if good and marginals:
             if n not in _SUBSETS:
                 _SUBSETS[n] = [tuple(c) for r in range(n + 1) for c in itertools.combinations(range(n), r)]
             for keep in _SUBSETS[n]:
                 out.trans()
-                ok2, p = _call(out, 'sim.state/reduce_to_probability', 'reduce_to_probability after history %s' % hl, lambda: st.reduce_to_probability(got, set(keep)), dict(keep=list(keep), **det))
+                ok2, p = _call(out, 'sim.state/reduce_to_probability', 'reduce_to_probability after %s' % what, lambda: st.reduce_to_probability(got, set(keep)), dict(keep=list(keep), **det))
                 if ok2:
-                    _compare(out, p, born_marginal(exp, n, keep), tl + tol_of(1.0, 1.0, D), 'sim.Circuit/marginal/mismatch', 'marginal on %s of the output of history %s != Born marginal of U_ref psi' % (set(keep), hl),
+                    _compare(out, p, born_marginal(exp, n, keep), tl + tol_of(1.0, 1.0, D), 'sim.Circuit/marginal/mismatch', 'marginal on %s of the output of %s != Born marginal of U_ref psi' % (set(keep), what),
                              dict(keep=list(keep), state=psi, **det), shape=(2**len(keep),))
-    out.trace()
+    if wide:
+        # a register wider than circ.num_qubit: the gates act on the leading qubits ("count from left to right"), identity on the rest
+        psi = atoms(env)['psi%d' % (n + 1)]
+        out.trans()
+        ok, got = _call(out, '%s/apply_state/wide_state/%s' % (site, cls), 'Circuit.apply_state(psi on num_qubit+1 qubits) for %s' % what, lambda: circ.apply_state(psi.copy()), dict(state=psi, **det))
+        if ok:
+            _compare(out, got, np.kron(Uref, np.eye(2)) @ psi, tl, '%s/apply_state/mismatch/wide_state' % site, 'apply_state(psi on %d qubits) for %s != (U_ref (x) 1) psi' % (n + 1, what),
+                     dict(state=psi, **det), shape=(2 * D,))
 
 
 def run_prog(case, out, env):
@@ -891,12 +1107,378 @@ def run_prog3s(case, out, env):
     import numqi
     evs = event_list(case['nq'], case['level'])
     second = [('append_prev', 0), ('append_prev', 1), ('append_prev', 2), ('extend', 'A'), ('extend', 'B')]
-    third = [('shift', 1), ('shift', 2), ('shift', -1)]
+    third = [('shift', 1), ('shift', 2), ('shift', -1), ('shift', 0)]
     for e1 in evs[case['lo']:case['hi']]:
         for e2 in second:
             for e3 in third:
                 run_history(numqi, out, env, (e1, e2, e3))
     out.sample = {'kind': 'prog3s', 'example_history': [list(evs[case['lo']]), list(second[0]), list(third[0])]}
+
+
+# ------------------------------------------------------------------------------------------------ placeholders (circ.P / setP)
+HOLD_SCHEMES = ['key,key', 'shared_key', 'pos0,pos1', 'pos1,pos0', 'pos,key[0]', 'key[0],key[1]/list', 'key[0],key[1]/tuple', 'key[0],key[1]/ndarray',
+                'shared_elem', 'key[i,j]', 'pos[i,j]']
+HOLD_NDARRAY = ('key[0],key[1]/ndarray', 'key[i,j]', 'pos[i,j]')   # the container is one ndarray: leaves are its elements / rows
+HOLD_SAME_ARITY = ('shared_key', 'shared_elem') + HOLD_NDARRAY
+LEAF = {1: ['float', 'float64', 'arr1', 'list1'], 3: ['tuple3', 'list3', 'arr3']}
+HOLD_GATES = {'rx': (1, (0,), lambda v: ref_rx(v[0])), 'ry': (1, (0,), lambda v: ref_ry(v[0])), 'rz': (1, (0,), lambda v: ref_rz(v[0])),
+              'rzz': (1, (1, 0), lambda v: ref_rzz(v[0])), 'u3': (3, (0,), lambda v: ref_u3(*v))}
+
+
+def make_leaf(form, v):
+    v = [float(x) for x in v]
+    return {'float': lambda: v[0], 'float64': lambda: np.float64(v[0]), 'arr1': lambda: np.array(v), 'list1': lambda: list(v),
+            'tuple3': lambda: tuple(v), 'list3': lambda: list(v), 'arr3': lambda: np.array(v), 'ndarray': lambda: (v[0] if len(v) == 1 else v)}[form]()
+
+
+def hold_binding(P, scheme, L1, L2):
+    """-> (placeholder of gate 1, placeholder of gate 2, positional args of setP, keyword args of setP)"""
+    junk = 0.123 if np.ndim(L1) == 0 else [0.123, 0.456, 0.789]
+    if scheme == 'key,key':
+        return P['a'], P['b'], (), dict(a=L1, b=L2)
+    if scheme == 'shared_key':
+        return P['a'], P['a'], (), dict(a=L1)
+    if scheme == 'pos0,pos1':
+        return P[0], P[1], ([L1, L2],), {}
+    if scheme == 'pos1,pos0':
+        return P[1], P[0], ([L2, L1],), {}
+    if scheme == 'pos,key[0]':  # the form of the repository's own test
+        return P[0], P['a'][0], ([L1],), dict(a=[L2])
+    if scheme == 'key[0],key[1]/list':
+        return P['a'][0], P['a'][1], (), dict(a=[L1, L2])
+    if scheme == 'key[0],key[1]/tuple':
+        return P['a'][0], P['a'][1], (), dict(a=(L1, L2))
+    if scheme == 'key[0],key[1]/ndarray':
+        return P['a'][0], P['a'][1], (), dict(a=np.array([L1, L2]))
+    if scheme == 'shared_elem':
+        return P['a'][1], P['a'][1], (), dict(a=[junk, L1])
+    arr = np.array([[junk, L1], [L2, junk]])
+    if scheme == 'key[i,j]':
+        return P['a'][0, 1], P['a'][1, 0], (), dict(a=arr)
+    if scheme == 'pos[i,j]':
+        return P[0, 1], P[1, 0], (arr,), {}
+    raise ValueError(scheme)
+
+
+def run_holder(case, out, env):
+    """gate1(placeholder) ; cnot(0,1) ; gate2(placeholder) on 2 qubits for every addressing scheme x leaf container; three setP rounds"""
+    import numqi
+    th = atoms(env)['theta']
+    g1, g2 = case['g1'], case['g2']
+    (a1, w1, f1), (a2, _, f2) = HOLD_GATES[g1], HOLD_GATES[g2]
+    w2 = (1,)
+    for scheme in HOLD_SCHEMES:
+        if scheme in HOLD_SAME_ARITY and a1 != a2:
+            out.count('holder_scheme_needs_equal_arity')
+            continue
+        for l1, l2 in ([('ndarray', 'ndarray')] if scheme in HOLD_NDARRAY else itertools.product(LEAF[a1], LEAF[a2])):
+            shared = scheme in ('shared_key', 'shared_elem')
+            if shared and l1 != l2:
+                continue
+            cls = 'holder/' + scheme
+            hl = dict(gate1=g1, gate2=g2, scheme=scheme, leaf1=l1, leaf2=l2)
+            out.state()
+            circ = numqi.sim.Circuit()
+            v1 = th[0:a1]
+            v2 = v1 if shared else th[2:2 + a2]
+            try:
+                h1, h2, pa, kw = hold_binding(circ.P, scheme, make_leaf(l1, v1), make_leaf(l2, v2))
+                getattr(circ, g1)(w1 if len(w1) > 1 else w1[0], h1)
+                circ.cnot(0, 1)
+                getattr(circ, g2)(w2[0], h2)
+            except Exception as e:  # noqa
+                out.violation('sim.Circuit/build/%s/%s' % (type(e).__name__, cls), 'building %s raised %s: %s' % (hl, type(e).__name__, str(e)[:160]), **hl)
+                continue
+            # an unbound placeholder gate has no matrix: apply_state refuses (ValueError with the hint to call setP)
+            try:
+                circ.apply_state(np.array([1, 0, 0, 0], dtype=np.complex128))
+                out.violation('sim.Circuit/apply_state/unbound_placeholder_accepted', 'apply_state before setP did not raise for %s' % hl, **hl)
+            except ValueError:
+                out.count('unbound_placeholder_rejected')
+
+            def ops_of(x1, x2):
+                return [(f1(x1), (), w1), (ref.X, (0,), (1,)), (f2(x2), (), w2)]
+            rounds = [('first_call', v1, v2, pa, kw)]
+            u1 = v1 + 1.0
+            u2 = u1 if shared else v2 + 2.0
+            _, _, pa2, kw2 = hold_binding(circ.P, scheme, make_leaf(l1, u1), make_leaf(l2, u2))
+            rounds.append(('second_call', u1, u2, pa2, kw2))
+            if scheme in ('key,key', 'pos,key[0]'):
+                # the store behind circ.P keeps what is not passed again: updating one key leaves the other gate where it was
+                t2 = v2 - 0.25
+                kw3 = dict(b=make_leaf(l2, t2)) if scheme == 'key,key' else dict(a=[make_leaf(l2, t2)])
+                rounds.append(('partial_update', u1, t2, (), kw3))
+            for rname, x1, x2, pa_, kw_ in rounds:
+                det = dict(setP_args=repr(pa_), setP_kwargs=repr(kw_), round=rname, **hl)
+                ok, _ = _call(out, 'sim.Circuit/setP/%s/%s' % (rname, cls), 'setP(*%r, **%r) [%s] for %s' % (pa_, kw_, rname, hl), lambda: circ.setP(*pa_, **kw_), det)
+                if not ok:
+                    break
+                out.state()
+                validate(numqi, out, env, circ, ops_of(x1, x2), cls, '%s after setP(*%r, **%r) [%s]' % (hl, pa_, kw_, rname), det, marginals=False, site='sim.Circuit/setP/' + rname)
+            out.trace()
+    out.sample = {'kind': 'holder', 'gate1': g1, 'gate2': g2, 'schemes': HOLD_SCHEMES, 'leaf_containers': LEAF}
+
+
+# ------------------------------------------------------------------------------------------------ Gate objects: sharing, set_args, copy
+# method -> (arity, [three wirings (controls, targets)], values -> matrix)
+OBJ_W1 = [((), (0,)), ((), (2,)), ((), (1,))]
+OBJ_W2 = [((), (0, 1)), ((), (2, 0)), ((), (1, 2))]
+OBJ_WC = [((0,), (1,)), ((2,), (0,)), ((0, 1), (2,))]
+OBJ_GATES = {'rx': (1, OBJ_W1, lambda v: ref_rx(v[0])), 'ry': (1, OBJ_W1, lambda v: ref_ry(v[0])), 'rz': (1, OBJ_W1, lambda v: ref_rz(v[0])),
+             'u3': (3, OBJ_W1, lambda v: ref_u3(*v)), 'rzz': (1, OBJ_W2, lambda v: ref_rzz(v[0])),
+             'crx': (1, OBJ_WC, lambda v: ref_rx(v[0])), 'cry': (1, OBJ_WC, lambda v: ref_ry(v[0])), 'crz': (1, OBJ_WC, lambda v: ref_rz(v[0])),
+             'cu3': (3, OBJ_WC, lambda v: ref_u3(*v)), 'ry_rx': (2, OBJ_W1, lambda v: ref_ry(v[1]) @ ref_rx(v[0]))}
+SETARG_FORMS = ['list', 'tuple', 'ndarray', 'list+array']
+
+
+def _index_arg(c, t):
+    return (set(c), tuple(t)) if c else (t if len(t) > 1 else t[0])
+
+
+def run_gateobj(case, out, env):
+    """one Gate object at several positions (append_gate) + ParameterGate.set_args (documented container forms) + copy():
+    every position holding the object follows set_args, a copy is independent in both directions"""
+    import numqi
+    A = atoms(env)
+    th = A['theta']
+    name = case['gate']
+    if name in OBJ_GATES:
+        ar, W, f = OBJ_GATES[name]
+        vs = [th[i:i + ar] + 0.1 * i for i in range(4)]  # four distinct parameter points
+
+        def form_args(form, v):
+            v = [float(x) for x in v]
+            return {'list': list(v), 'tuple': tuple(v), 'ndarray': np.array(v), 'list+array': list(v)}[form]
+
+        def set_args(g, form, v):
+            if form == 'list+array':  # the two-argument form used by numqi's own torch wrapper: the matrix is supplied
+                g.set_args(form_args(form, v), f(v))
+            else:
+                g.set_args(form_args(form, v))
+        for form in SETARG_FORMS:
+            for order in ('append,set', 'set,append'):
+                cls = 'gateobj/%s' % form
+                hl = dict(gate=name, set_args_form=form, order=order)
+                out.state()
+                circ = numqi.sim.Circuit()
+                Ry, Mc = custom_classes(numqi, env)
+                circ.register_custom_gate('ry_rx', Ry)
+                steps = []  # (site, reference program)
+                try:
+                    (c0, t0), (c1, t1), (c2, t2) = W
+                    v0 = vs[0]
+                    a0 = v0[0] if ar == 1 else tuple(v0)
+                    if name == 'ry_rx':
+                        g = circ.ry_rx(t0[0], *v0)
+                    elif c0:
+                        g = getattr(circ, name)(c0[0], t0[0], a0)
+                    else:
+                        g = getattr(circ, name)(_index_arg(c0, t0), a0)
+                    circ.H(2)
+                    if order == 'append,set':
+                        circ.append_gate(g, _index_arg(c1, t1))
+                        steps.append(('sim.Circuit/append_gate/shared', [(f(v0), c0, t0), (ref.H, (), (2,)), (f(v0), c1, t1)]))
+                        _flush(numqi, out, env, circ, steps, cls, hl)
+                        set_args(g, form, vs[1])
+                    else:
+                        set_args(g, form, vs[1])
+                        steps.append(('sim.ParameterGate/set_args', [(f(vs[1]), c0, t0), (ref.H, (), (2,))]))
+                        _flush(numqi, out, env, circ, steps, cls, hl)
+                        circ.append_gate(g, _index_arg(c1, t1))
+                    base = [(f(vs[1]), c0, t0), (ref.H, (), (2,)), (f(vs[1]), c1, t1)]
+                    steps.append(('sim.ParameterGate/set_args/shared', base))
+                    _flush(numqi, out, env, circ, steps, cls, hl)
+                    got_args = np.asarray(g.args, dtype=np.float64).reshape(-1)
+                    out.check(got_args.shape == (ar,) and np.abs(got_args - vs[1]).max() < 1e-12, 'sim.ParameterGate/set_args/args_not_stored',
+                              'gate.args after set_args(%s) is %r, expected the values %r' % (form, g.args, list(vs[1])), **hl)
+                    g2 = g.copy()
+                    circ.append_gate(g2, _index_arg(c2, t2))
+                    steps.append(('sim.ParameterGate/copy/not_equal', base + [(f(vs[1]), c2, t2)]))
+                    _flush(numqi, out, env, circ, steps, cls, hl)
+                    set_args(g2, form, vs[2])
+                    steps.append(('sim.ParameterGate/copy/original_follows_copy', base + [(f(vs[2]), c2, t2)]))
+                    _flush(numqi, out, env, circ, steps, cls, hl)
+                    set_args(g, form, vs[3])
+                    steps.append(('sim.ParameterGate/copy/copy_follows_original', [(f(vs[3]), c0, t0), (ref.H, (), (2,)), (f(vs[3]), c1, t1), (f(vs[2]), c2, t2)]))
+                    _flush(numqi, out, env, circ, steps, cls, hl)
+                except Exception as e:  # noqa
+                    out.violation('sim.Circuit/build/%s/%s' % (type(e).__name__, cls), 'Gate-object history %s raised %s: %s (at %s)' % (hl, type(e).__name__, str(e)[:160], core.exc_site(e)), **hl)
+                out.trace()
+    elif name == 'Gate.copy':
+        # plain Gate: copy() owns its matrix (in-place edits of the copy's array do not reach the original, and vice versa); kind is kept
+        for kind in ('unitary', 'control'):
+            hl = dict(gate='Gate(%s)' % kind)
+            out.state()
+            circ = numqi.sim.Circuit()
+            U, V = A['U1'], A['V1']
+            if kind == 'unitary':
+                g = circ.single_qubit_gate(U.copy(), 0)
+                w0, w1 = ((), (0,)), ((), (1,))
+            else:
+                g = circ.controlled_single_qubit_gate(U.copy(), {1}, 0)
+                w0, w1 = ((1,), (0,)), ((0,), (1,))
+            g2 = g.copy()
+            out.check(g2.kind == g.kind and g2 is not g, 'sim.Gate/copy/kind', 'Gate.copy() changed the kind / returned the same object', **hl)
+            circ.append_gate(g2, _index_arg(*w1))
+            steps = [('sim.Gate/copy/not_equal', [(U,) + w0, (U,) + w1])]
+            _flush(numqi, out, env, circ, steps, 'gateobj/Gate', hl)
+            g2.array[...] = V
+            steps.append(('sim.Gate/copy/original_follows_copy', [(U,) + w0, (V,) + w1]))
+            _flush(numqi, out, env, circ, steps, 'gateobj/Gate', hl)
+            g.array[...] = U @ V
+            steps.append(('sim.Gate/copy/copy_follows_original', [(U @ V,) + w0, (V,) + w1]))
+            _flush(numqi, out, env, circ, steps, 'gateobj/Gate', hl)
+            out.trace()
+    elif name == 'copy_of_placeholder':
+        # copy() of a gate bound to circ.P is bound to the same placeholder: both follow setP (before and after the first setP)
+        for when in ('before_setP', 'after_setP'):
+            for meth, f in (('rx', ref_rx), ('rzz', ref_rzz)):
+                hl = dict(gate=meth, copy=when)
+                out.state()
+                circ = numqi.sim.Circuit()
+                w0, w1 = (((), (0,)), ((), (1,))) if meth == 'rx' else (((), (0, 1)), ((), (2, 1)))
+                try:
+                    g = getattr(circ, meth)(_index_arg(*w0), circ.P['a'])
+                    if when == 'after_setP':
+                        circ.setP(a=float(th[0]))
+                    circ.append_gate(g.copy(), _index_arg(*w1))
+                    steps = []
+                    for v in (float(th[1]), float(th[2])):
+                        circ.setP(a=v)
+                        steps.append(('sim.ParameterGate/copy/placeholder_lost', [(f(v),) + w0, (f(v),) + w1]))
+                        _flush(numqi, out, env, circ, steps, 'gateobj/placeholder', hl)
+                except Exception as e:  # noqa
+                    out.violation('sim.Circuit/build/%s/gateobj/placeholder' % type(e).__name__, 'history %s raised %s: %s' % (hl, type(e).__name__, str(e)[:160]), **hl)
+                out.trace()
+    elif name == 'custom_kind':
+        # a user gate of kind 'custom' (any object with kind/name/requires_grad/forward): apply_state calls forward() in program order
+        V = A['V1']
+
+        class MyCustom:
+            def __init__(self, index):
+                self.kind = 'custom'
+                self.name = 'my_custom'
+                self.requires_grad = False
+                self.index = (int(index),)
+
+            def forward(self, q0):
+                return numqi.sim.state.apply_gate(q0, V, self.index)
+        for pos in range(4):
+            for q in (0, 1):
+                hl = dict(gate='custom_kind', position=pos, qubit=q)
+                out.state()
+                circ = numqi.sim.Circuit()
+                circ.register_custom_gate('my_custom', MyCustom)
+                prog = [('H', (0,), ref.H, ()), ('cnot', (0, 1), ref.X, (0,)), ('ry', (1, float(th[0])), ref_ry(th[0]), ())]
+                ops = []
+                for i in range(4):
+                    if i == pos:
+                        circ.my_custom(q)
+                        ops.append((V, (), (q,)))
+                    if i < 3:
+                        m, args, mat, ctl = prog[i]
+                        getattr(circ, m)(*args)
+                        ops.append((mat, ctl, (args[1],) if ctl else (args[0],)))
+                validate(numqi, out, env, circ, ops, 'custom_kind', 'program with a kind=custom gate %s' % hl, hl, marginals=False)
+                out.trace()
+    elif name == 'empty_control':
+        # a controlled gate with NO control qubit is the gate itself; the Circuit methods' own asserts accept an empty control set
+        if 'empty_control' in PENDING:
+            out.count('pending/empty_control')
+        else:
+            V1, V2 = A['V1'], A['V2']
+            progs = [('controlled_single_qubit_gate', lambda c: c.controlled_single_qubit_gate(V1.copy(), set(), 1), (V1, (), (1,))),
+                     ('controlled_double_qubit_gate', lambda c: c.controlled_double_qubit_gate(V2.copy(), set(), (1, 0)), (V2, (), (1, 0))),
+                     ('cry', lambda c: c.cry((), 1, float(th[0])), (ref_ry(th[0]), (), (1,))),
+                     ('append_gate', lambda c: c.append_gate(numqi.sim.Gate('control', V1.copy()), (set(), (1,))), (V1, (), (1,)))]
+            for meth, fn, op in progs:
+                for with_other in (False, True):
+                    hl = dict(method=meth, other_gate=with_other)
+                    out.state()
+                    circ = numqi.sim.Circuit()
+                    ops = [op]
+                    try:
+                        if with_other:
+                            circ.H(2)
+                            ops = [(ref.H, (), (2,)), op]
+                        fn(circ)
+                    except AssertionError as e:
+                        if core.is_precondition_assert(e):
+                            out.count('rejected_by_precondition[empty_control]')
+                            continue
+                        raise
+                    validate(numqi, out, env, circ, ops, 'empty_control/' + meth, 'Circuit.%s with an empty control set %s' % (meth, hl), hl, marginals=False)
+                    out.trace()
+    out.sample = {'kind': 'gateobj', 'gate': name}
+
+
+def _flush(numqi, out, env, circ, steps, cls, hl):
+    site, ops = steps[-1]
+    validate(numqi, out, env, circ, ops, cls, 'Gate-object history %s, step %d' % (hl, len(steps)), dict(step=len(steps), **hl), marginals=False, site=site)
+
+
+# ------------------------------------------------------------------------------------------------ argument forms of the Circuit vocabulary
+INT_FORMS = {'int': int, 'np.int64': np.int64}
+CTL_FORMS = {'set': set, 'frozenset': frozenset, 'list': list, 'tuple': tuple, 'ndarray': lambda c: np.array(list(c), dtype=np.int64),
+             'set[np.int64]': lambda c: {np.int64(x) for x in c}}
+DOCUMENTED_CTL = ('set', 'tuple')
+ORDERED_FORMS = ('list', 'tuple', 'ndarray')  # usable for an ordered target tuple
+
+
+def argform_programs(numqi, A, th, I, C, T):
+    """[(method, build(circ), reference program)]: one call per vocabulary method with every qubit index through I, every
+    control collection through C and every ordered multi-target collection through T"""
+    v, trip = float(th[0]), tuple(float(x) for x in th[2:5])
+    P = []
+    for g, m in FIXED1.items():
+        P.append((g, (lambda c, g=g: getattr(c, g)(I(1))), [(m, (), (1,))]))
+    P.append(('Swap', lambda c: c.Swap(I(2), I(0)), [(SWAP, (), (2, 0))]))
+    for g, m in CTRL1.items():
+        P.append((g, (lambda c, g=g: getattr(c, g)(C((2,)), I(0))), [(m, (2,), (0,))]))
+        P.append((g + '[control=scalar]', (lambda c, g=g: getattr(c, g)(I(2), C((0,)))), [(m, (2,), (0,))]))
+    P.append(('toffoli', lambda c: c.toffoli(C((2, 0)), I(1)), [(ref.X, (0, 2), (1,))]))
+    for g, f in PAR1.items():
+        P.append((g, (lambda c, g=g: getattr(c, g)(I(1), v)), [(f(v), (), (1,))]))
+    P.append(('u3', lambda c: c.u3(I(1), trip), [(ref_u3(*trip), (), (1,))]))
+    P.append(('rzz', lambda c: c.rzz(T((I(2), I(0))), v), [(ref_rzz(v), (), (2, 0))]))
+    for g, f in CPAR1.items():
+        P.append((g, (lambda c, g=g: getattr(c, g)(C((0,)), I(2), v)), [(f(v), (0,), (2,))]))
+        P.append((g + '[2 controls]', (lambda c, g=g: getattr(c, g)(C((1, 0)), I(2), v)), [(f(v), (0, 1), (2,))]))
+    P.append(('cu3', lambda c: c.cu3(C((2, 1)), I(0), trip), [(ref_u3(*trip), (1, 2), (0,))]))
+    P.append(('single_qubit_gate', lambda c: c.single_qubit_gate(A['U1'].copy(), I(1)), [(A['U1'], (), (1,))]))
+    P.append(('double_qubit_gate', lambda c: c.double_qubit_gate(A['U2'].copy(), I(2), I(0)), [(A['U2'], (), (2, 0))]))
+    P.append(('triple_qubit_gate', lambda c: c.triple_qubit_gate(A['U3'].copy(), I(2), I(0), I(1)), [(A['U3'], (), (2, 0, 1))]))
+    P.append(('quadruple_qubit_gate', lambda c: c.quadruple_qubit_gate(A['U4'].copy(), I(3), I(0), I(2), I(1)), [(A['U4'], (), (3, 0, 2, 1))]))
+    P.append(('controlled_single_qubit_gate', lambda c: c.controlled_single_qubit_gate(A['V1'].copy(), C((2, 1)), I(0)), [(A['V1'], (1, 2), (0,))]))
+    P.append(('controlled_double_qubit_gate', lambda c: c.controlled_double_qubit_gate(A['V2'].copy(), C((1,)), T((I(2), I(0)))), [(A['V2'], (1,), (2, 0))]))
+    P.append(('append_gate[unitary]', lambda c: c.append_gate(c.single_qubit_gate(A['U1'].copy(), 0), I(2)), [(A['U1'], (), (0,)), (A['U1'], (), (2,))]))
+    P.append(('append_gate[control]', lambda c: c.append_gate(c.cy(0, 1), (C((2, 1)), (I(0),))), [(ref.Y, (0,), (1,)), (ref.Y, (1, 2), (0,))]))
+    P.append(('shift_qubit_index_', lambda c: (c.cy(0, 1), c.shift_qubit_index_(I(1))), [(ref.Y, (1,), (2,))]))
+    return P
+
+
+def run_argform(case, out, env):
+    import numqi
+    A = atoms(env)
+    iform, cform = case['int'], case['ctl']
+    documented = cform in DOCUMENTED_CTL
+    for meth, build, ops in argform_programs(numqi, A, A['theta'], INT_FORMS[iform], CTL_FORMS[cform], CTL_FORMS[cform] if cform in ORDERED_FORMS else tuple):
+        hl = dict(method=meth, int_form=iform, collection_form=cform)
+        cls = 'argform/%s/%s' % (iform, cform)
+        out.state()
+        circ = numqi.sim.Circuit()
+        try:
+            build(circ)
+        except Exception as e:  # noqa
+            if not documented and ((isinstance(e, AssertionError) and core.is_precondition_assert(e)) or isinstance(e, TypeError)):
+                out.count('undocumented_form_rejected[%s]' % cform)  # outside the documented argument forms: a refusal is fine
+                continue
+            out.violation('sim.Circuit/build/%s/%s' % (type(e).__name__, cls), 'Circuit.%s with %s raised %s: %s (at %s)' % (meth, hl, type(e).__name__, str(e)[:160], core.exc_site(e)), **hl)
+            continue
+        out.count('argform_accepted[%s]' % cform)
+        validate(numqi, out, env, circ, ops, cls, 'Circuit.%s called with %s' % (meth, hl), hl, marginals=False)
+        out.trace()
+    out.sample = {'kind': 'argform', 'int_form': iform, 'collection_form': cform}
 
 
 def run_gatedef(case, out, env):
@@ -969,7 +1551,15 @@ def build_cases(tier, seed):
         for k in range(1, min(3, n) + 1):
             for tgt in itertools.permutations(range(n), k):
                 cases.append({'kind': 'expect', 'n': n, 'tgt': list(tgt)})
-    info['expect'] = {'n_max': n_exp}
+    # thin slices for n = 5 (6): every ordered target tuple, thin matrix-unit alphabet of rho (thin_matrix_units), operator alphabet thin_ops
+    thin_cfg = [(5, 2)] if quick else [(5, 3), (6, 3)]
+    for n, kmax in thin_cfg:
+        for k in range(1, kmax + 1):
+            for tgt in itertools.permutations(range(n), k):
+                cases.append({'kind': 'dm', 'n': n, 'tgt': list(tgt), 'mode': 'thin', 'lo': 0, 'hi': 0, 'kfull': 1 if quick else 2})
+                cases.append({'kind': 'expect', 'n': n, 'tgt': list(tgt), 'thin': True, 'kfull': 1 if quick else 2})
+    info['dm'] += [{'n': a, 'k_thin_slice': b, 'all_matrix_units_of_op_up_to_k': 1 if quick else 2} for a, b in thin_cfg]
+    info['expect'] = {'n_max': n_exp, 'thin_slices': [{'n': a, 'k_max': b} for a, b in thin_cfg]}
     n_prob = 4 if quick else 6
     for n in range(1, n_prob + 1):
         step = 2**n if n <= 4 else 4
@@ -984,6 +1574,18 @@ def build_cases(tier, seed):
                 cases.append({'kind': 'inner', 'n': n, 'tA': list(tA), 'tB': list(tB), 'units': n <= 2})
     info['inner'] = {'n_max': n_inner, 'matrix_unit_products_n_max': 2}
     cases.append({'kind': 'gatedef'})
+    for g1 in HOLD_GATES:
+        for g2 in ('ry', 'u3'):
+            cases.append({'kind': 'holder', 'g1': g1, 'g2': g2})
+    OBJ = list(OBJ_GATES) + ['Gate.copy', 'copy_of_placeholder', 'custom_kind', 'empty_control']
+    for g in OBJ:
+        cases.append({'kind': 'gateobj', 'gate': g})
+    info['gateobj'] = {'histories': OBJ, 'set_args_forms': SETARG_FORMS, 'orders': ['append,set', 'set,append']}
+    for i in INT_FORMS:
+        for c in CTL_FORMS:
+            cases.append({'kind': 'argform', 'int': i, 'ctl': c})
+    info['argform'] = {'int_forms': list(INT_FORMS), 'collection_forms': list(CTL_FORMS), 'methods': 'every gate-adding method, append_gate, shift_qubit_index_'}
+    info['holder'] = {'gate1': list(HOLD_GATES), 'gate2': ['ry', 'u3'], 'schemes': HOLD_SCHEMES, 'leaf_containers': LEAF, 'setP_rounds': ['first_call', 'second_call', 'partial_update']}
     # ---- programs
     prog_cfg = [(3, 'full', 1), (3, 'medium', 2), (4, 'wide', 1)] if quick else [(3, 'full', 2), (4, 'wide', 1), (2, 'full', 3), (3, 'reduced', 3)]
     info['programs'] = []
@@ -1000,9 +1602,9 @@ def build_cases(tier, seed):
     evs_m = event_list(3, 'medium')
     for i in range(0, len(evs_m), 12):
         cases.append({'kind': 'prog3s', 'nq': 3, 'level': 'medium', 'lo': i, 'hi': min(i + 12, len(evs_m)), 'depth': 3})
-    info['programs'].append({'nq': 3, 'alphabet': 'medium x {append_prev 0,1,2; extend A,B} x {shift +1,+2,-1}', 'events': len(evs_m), 'max_depth': 3,
-                             'histories': len(evs_m) * 5 * 3})
-    order = {'gatedef': 0, 'gate': 1, 'prob': 2, 'expect': 3, 'dm': 4, 'inner': 5, 'prog': 6, 'prog3s': 7}
+    info['programs'].append({'nq': 3, 'alphabet': 'medium x {append_prev 0,1,2; extend A,B} x {shift +1,+2,-1,0}', 'events': len(evs_m), 'max_depth': 3,
+                             'histories': len(evs_m) * 5 * 4})
+    order = {'gatedef': 0, 'holder': 0.5, 'gateobj': 0.6, 'argform': 0.7, 'gate': 1, 'prob': 2, 'expect': 3, 'dm': 4, 'inner': 5, 'prog': 6, 'prog3s': 7}
     cases.sort(key=lambda c: (order[c['kind']], c.get('depth', 0), c.get('n', c.get('nq', 0)), len(c.get('tgt', [])) + len(c.get('ctl', []))))
     info['exhaustive'] = True
     info['note'] = ('exhaustive within the stated bounds: every index pattern for n<=%d, complete operator/state bases, every history to the depth bound '
@@ -1012,4 +1614,4 @@ def build_cases(tier, seed):
 
 def run_case(case, out, env):
     kind = case['kind']
-    {'gate': run_gate, 'dm': run_dm, 'expect': run_expect, 'prob': run_prob, 'inner': run_inner, 'prog': run_prog, 'prog3s': run_prog3s, 'gatedef': run_gatedef}[kind](case, out, env)
+    {'gate': run_gate, 'dm': run_dm, 'expect': run_expect, 'prob': run_prob, 'inner': run_inner, 'prog': run_prog, 'prog3s': run_prog3s, 'gatedef': run_gatedef, 'holder': run_holder, 'gateobj': run_gateobj, 'argform': run_argform}[kind](case, out, env)
